@@ -1275,7 +1275,7 @@ def _const_expr(e, module_consts, depth=0):
     return False
 
 
-def _name_table(e, stable):
+def _name_table(e, stable, module_consts=frozenset()):
     """a dict / tuple / list display whose entries are constants or names that denote one object for the life of the module
     (imported objects, classes, functions): a dispatch table"""
     def ok(x):
@@ -1285,7 +1285,8 @@ def _name_table(e, stable):
             x = x.value
         return isinstance(x, ast.Name) and x.id in stable
     if isinstance(e, ast.Dict):
-        return bool(e.keys) and all(k is not None and ok(k) for k in e.keys) and all(ok(v) for v in e.values)
+        return bool(e.keys) and all(k is not None and ok(k) for k in e.keys) and \
+            all(ok(v) or _literal(v) or (isinstance(v, ast.Name) and v.id in module_consts) for v in e.values)
     if isinstance(e, (ast.Tuple, ast.List)):
         return bool(e.elts) and all(ok(x) for x in e.elts)
     return False
@@ -1331,7 +1332,7 @@ def inline_constants(tree, shape):
         if isinstance(st, ast.Assign) and len(st.targets) == 1 and isinstance(st.targets[0], ast.Name):
             name = st.targets[0].id
             if name in pinned or not (_literal(st.value) or _const_expr(st.value, module_consts) or _table_comprehension(st.value, stable)
-                                      or _name_table(st.value, stable)):
+                                      or _name_table(st.value, stable, module_consts)):
                 continue
             consts[name] = st
     if not consts:
@@ -2380,14 +2381,12 @@ def expand_table_dispatch(tree):
 
     def find(st):
         hits = []
-        for c in ast.walk(st):
-            if isinstance(c, ast.Call):
-                f = c.func
-                sub = f.value if isinstance(f, ast.Attribute) else f
-                if isinstance(sub, ast.Subscript) and isinstance(sub.value, ast.Dict) and isinstance(sub.slice, ast.Name) and sub.value.keys \
-                        and all(isinstance(k, ast.Constant) for k in sub.value.keys) and all(entry_ok(v) for v in sub.value.values) \
-                        and len({repr(k.value) for k in sub.value.keys}) == len(sub.value.keys):
-                    hits.append(sub)
+        for sub in ast.walk(st):
+            if isinstance(sub, ast.Subscript) and isinstance(sub.ctx, ast.Load) and isinstance(sub.value, ast.Dict) and isinstance(sub.slice, ast.Name) \
+                    and sub.value.keys and all(k is not None and (isinstance(k, ast.Constant) or _dotted(k)) for k in sub.value.keys) \
+                    and all(entry_ok(v) or _literal(v) for v in sub.value.values) \
+                    and len({ast.dump(k) for k in sub.value.keys}) == len(sub.value.keys):
+                hits.append(sub)
         return hits
     for owner in ast.walk(tree):
         if not isinstance(owner, (ast.FunctionDef, ast.If, ast.For, ast.While, ast.With, ast.Try, ast.ExceptHandler)):
@@ -2449,6 +2448,12 @@ class _SpreadKeywords(ast.NodeTransformer):
         return node
 
 
+def _dotted(x):
+    while isinstance(x, ast.Attribute):
+        x = x.value
+    return isinstance(x, ast.Name)
+
+
 def expand_dict_get(fn):
     """N26.  For a local that is bound exactly once, to a dict display / dict comprehension / dict(...) call, `d.get(k)` is
     `d[k] if k in d else None` and `d.get(k, x)` is `d[k] if k in d else x` (k an effect-free expression)."""
@@ -2465,8 +2470,6 @@ def expand_dict_get(fn):
              and isinstance(bs[0].targets[0], ast.Name) and (isinstance(bs[0].value, (ast.Dict, ast.DictComp))
                                                               or (isinstance(bs[0].value, ast.Call) and _callee(bs[0].value) == "dict"))}
     dicts -= {a.arg for a in ast.walk(fn.args) if isinstance(a, ast.arg)}
-    if not dicts:
-        return 0
     count = 0
 
     class G(ast.NodeTransformer):
@@ -2477,6 +2480,15 @@ def expand_dict_get(fn):
             nonlocal count
             self.generic_visit(node)
             f = node.func
+            if isinstance(f, ast.Attribute) and f.attr == "get" and isinstance(f.value, ast.Dict) and f.value.keys and 1 <= len(node.args) <= 2 \
+                    and not node.keywords and is_pure(node.args[0]) and all(k is not None and (isinstance(k, ast.Constant) or _dotted(k)) for k in f.value.keys) \
+                    and all(is_pure(v) for v in f.value.values) and len({ast.dump(k) for k in f.value.keys}) == len(f.value.keys):
+                # a lookup in a table display: a case distinction on the key, the default for any other key
+                out = node.args[1] if len(node.args) == 2 else ast.Constant(value=None)
+                for k, v in reversed(list(zip(f.value.keys, f.value.values))):
+                    out = ast.IfExp(test=ast.Compare(left=copy.deepcopy(node.args[0]), ops=[ast.Eq()], comparators=[k]), body=v, orelse=out)
+                count += 1
+                return ast.copy_location(out, node)
             if isinstance(f, ast.Attribute) and f.attr == "get" and isinstance(f.value, ast.Name) and f.value.id in dicts \
                     and 1 <= len(node.args) <= 2 and not node.keywords and is_pure(node.args[0]):
                 k = node.args[0]
